@@ -1,6 +1,7 @@
 import PiqpProofs.Basic
 import PiqpModel.Api
 import PiqpProofs.Properties.C13
+import PiqpProofs.Properties.C14
 import Mathlib.Tactic.SplitIfs
 
 /-!
@@ -226,4 +227,336 @@ theorem update_lower_triangle_irrelevant (st : ApiState K) (a : AnySolver K) (hs
     simp only [optMat, Option.map_some]
     rw [updateTyped_congr_P cs sqrtF mP s _ _ _ _ _ _ _ _ _ reuse hmat]
 end api
+end Piqp.C10
+
+/-! ## Injectivity of the full Newton operator, and equal steps across back ends
+
+`backends_agree_exact` concludes `out1 = out2` from an injectivity hypothesis that, as stated there (for *all* steps, dead tails
+included), no state with an inactive box slot can meet. `multiply_injective` proves the injectivity that is actually needed —
+on steps agreeing on the dead tails — for convex problems at interior iterates (energy argument, `newton_kernel_trivial`), and
+`backends_agree_convex` is the resulting statement without unmet hypotheses. -/
+
+set_option linter.unusedSectionVars false
+set_option linter.unusedSimpArgs false
+set_option linter.unusedVariables false
+namespace Piqp.C10
+open Finset
+section kernel
+variable {K : Type} [Field K] [LinearOrder K] [IsStrictOrderedRing K]
+variable {n p m : Nat}
+
+theorem sum_scatter_f (act : Fin n → Prop) [DecidablePred act] (idx : Fin n → Fin n) (f x : Fin n → K) :
+    (∑ j : Fin n, x j * ∑ a : Fin n, if act a ∧ idx a = j then f a else 0) = ∑ a : Fin n, if act a then f a * x (idx a) else 0 := by
+  simp only [Finset.mul_sum]
+  rw [Finset.sum_comm]
+  refine Finset.sum_congr rfl fun a _ => ?_
+  by_cases ha : act a
+  · simp only [ha, true_and, if_true]
+    rw [Finset.sum_eq_single (idx a)]
+    · rw [if_pos rfl]; ring
+    · intro j _ hj
+      have : ¬ idx a = j := fun e => hj e.symm
+      rw [if_neg this, mul_zero]
+    · intro h; exact absurd (Finset.mem_univ _) h
+  · simp [ha]
+
+theorem sum_swap_f {q : Nat} (M : Fin n → Fin q → K) (x : Fin n → K) (y : Fin q → K) :
+    (∑ j : Fin n, x j * ∑ t : Fin q, M j t * y t) = ∑ t : Fin q, y t * ∑ j : Fin n, M j t * x j := by
+  simp only [Finset.mul_sum]
+  rw [Finset.sum_comm]
+  exact Finset.sum_congr rfl fun t _ => Finset.sum_congr rfl fun j _ => by ring
+
+theorem slack_of (sv zinv wz ws : K) (hz : 0 < zinv) (h : sv * wz + (1 / zinv) * ws = 0) : ws = -(sv * zinv) * wz := by
+  have hne : zinv ≠ 0 := ne_of_gt hz
+  have h2 : ws = -(sv * wz) * zinv := by
+    have : (1 / zinv) * ws = -(sv * wz) := by linear_combination h
+    calc ws = zinv * ((1 / zinv) * ws) := by field_simp
+      _ = zinv * (-(sv * wz)) := by rw [this]
+      _ = -(sv * wz) * zinv := by ring
+  rw [h2]; ring
+
+/-- **the full regularised Newton operator of a convex problem at an interior iterate has a trivial kernel** (on the live
+    slots), stated for plain index functions: the energy argument
+    `0 = wxᵀ(row x) = wxᵀP wx + ρ‖wx‖² + δ‖wy‖² + Σ (δ + s·z⁻¹) wz² + Σ_act (…) wzl² + Σ_act (…) wzu²` -/
+theorem newton_kernel_trivial (Pm : Fin n → Fin n → K) (AT : Fin n → Fin p → K) (GT : Fin n → Fin m → K)
+    (actl actu : Fin n → Prop) [DecidablePred actl] [DecidablePred actu] (idxl idxu : Fin n → Fin n) (scl scu : Fin n → K)
+    (ρ δ : K) (sv zinv : Fin m → K) (sl zl su zu : Fin n → K)
+    (hP : ∀ x : Fin n → K, 0 ≤ ∑ j : Fin n, x j * ∑ c : Fin n, Pm j c * x c) (hρ : 0 < ρ) (hδ : 0 < δ)
+    (hs : ∀ t, 0 < sv t) (hz : ∀ t, 0 < zinv t)
+    (hsl : ∀ a, actl a → 0 < sl a) (hzl : ∀ a, actl a → 0 < zl a) (hsu : ∀ a, actu a → 0 < su a) (hzu : ∀ a, actu a → 0 < zu a)
+    (wx : Fin n → K) (wy : Fin p → K) (wz ws : Fin m → K) (wzl wsl wzu wsu : Fin n → K)
+    (hX : ∀ j, (∑ c, Pm j c * wx c) + ρ * wx j + ((∑ t, AT j t * wy t) + ∑ t, GT j t * wz t)
+        - (∑ a, if actl a ∧ idxl a = j then scl a * wzl a else 0) + (∑ a, if actu a ∧ idxu a = j then scu a * wzu a else 0) = 0)
+    (hY : ∀ t, (∑ i, AT i t * wx i) - δ * wy t = 0)
+    (hZ : ∀ t, (∑ i, GT i t * wx i) - δ * wz t + ws t = 0)
+    (hZL : ∀ a, actl a → -scl a * wx (idxl a) - δ * wzl a + wsl a = 0)
+    (hZU : ∀ a, actu a → scu a * wx (idxu a) - δ * wzu a + wsu a = 0)
+    (hS : ∀ t, sv t * wz t + (1 / zinv t) * ws t = 0)
+    (hSL : ∀ a, actl a → sl a * wzl a + (1 / zl a) * wsl a = 0)
+    (hSU : ∀ a, actu a → su a * wzu a + (1 / zu a) * wsu a = 0) :
+    (∀ j, wx j = 0) ∧ (∀ t, wy t = 0) ∧ (∀ t, wz t = 0) ∧ (∀ t, ws t = 0) ∧
+    (∀ a, actl a → wzl a = 0 ∧ wsl a = 0) ∧ (∀ a, actu a → wzu a = 0 ∧ wsu a = 0) := by
+  have ews : ∀ t, ws t = -(sv t * zinv t) * wz t := fun t => slack_of _ _ _ _ (hz t) (hS t)
+  have ewsl : ∀ a, actl a → wsl a = -(sl a * zl a) * wzl a := fun a ha => slack_of _ _ _ _ (hzl a ha) (hSL a ha)
+  have ewsu : ∀ a, actu a → wsu a = -(su a * zu a) * wzu a := fun a ha => slack_of _ _ _ _ (hzu a ha) (hSU a ha)
+  have hE : (∑ j, wx j * ((∑ c, Pm j c * wx c) + ρ * wx j + ((∑ t, AT j t * wy t) + ∑ t, GT j t * wz t)
+        - (∑ a, if actl a ∧ idxl a = j then scl a * wzl a else 0) + (∑ a, if actu a ∧ idxu a = j then scu a * wzu a else 0))) = 0 :=
+    Finset.sum_eq_zero fun j _ => by rw [hX j, mul_zero]
+  simp only [mul_add, mul_sub, Finset.sum_add_distrib, Finset.sum_sub_distrib] at hE
+  rw [sum_swap_f AT wx wy, sum_swap_f GT wx wz, sum_scatter_f actl idxl (fun a => scl a * wzl a) wx,
+    sum_scatter_f actu idxu (fun a => scu a * wzu a) wx] at hE
+  have tY : (∑ t, wy t * ∑ j, AT j t * wx j) = ∑ t, δ * (wy t * wy t) :=
+    Finset.sum_congr rfl fun t _ => by have := hY t; linear_combination wy t * this
+  have tZ : (∑ t, wz t * ∑ j, GT j t * wx j) = ∑ t, (δ + sv t * zinv t) * (wz t * wz t) :=
+    Finset.sum_congr rfl fun t _ => by have := hZ t; have e := ews t; linear_combination wz t * this - wz t * e
+  have tL : (∑ a, if actl a then scl a * wzl a * wx (idxl a) else 0) =
+      -∑ a, if actl a then (δ + sl a * zl a) * (wzl a * wzl a) else 0 := by
+    rw [← Finset.sum_neg_distrib]
+    refine Finset.sum_congr rfl fun a _ => ?_
+    by_cases ha : actl a
+    · simp only [ha, if_true]
+      have := hZL a ha; have e := ewsl a ha
+      linear_combination (-wzl a) * this + wzl a * e
+    · simp [ha]
+  have tU : (∑ a, if actu a then scu a * wzu a * wx (idxu a) else 0) =
+      ∑ a, if actu a then (δ + su a * zu a) * (wzu a * wzu a) else 0 := by
+    refine Finset.sum_congr rfl fun a _ => ?_
+    by_cases ha : actu a
+    · simp only [ha, if_true]
+      have := hZU a ha; have e := ewsu a ha
+      linear_combination wzu a * this - wzu a * e
+    · simp [ha]
+  rw [tY, tZ, tL, tU] at hE
+  have q1 : 0 ≤ ∑ j, wx j * ∑ c, Pm j c * wx c := hP wx
+  have n2 : ∀ j ∈ (Finset.univ : Finset (Fin n)), 0 ≤ wx j * (ρ * wx j) := fun j _ => by nlinarith [mul_self_nonneg (wx j)]
+  have n3 : ∀ t ∈ (Finset.univ : Finset (Fin p)), 0 ≤ δ * (wy t * wy t) := fun t _ => mul_nonneg (le_of_lt hδ) (mul_self_nonneg _)
+  have n4 : ∀ t ∈ (Finset.univ : Finset (Fin m)), 0 ≤ (δ + sv t * zinv t) * (wz t * wz t) :=
+    fun t _ => mul_nonneg (by have := mul_pos (hs t) (hz t); linarith) (mul_self_nonneg _)
+  have n5 : ∀ a ∈ (Finset.univ : Finset (Fin n)), 0 ≤ (if actl a then (δ + sl a * zl a) * (wzl a * wzl a) else 0) := fun a _ => by
+    split
+    · rename_i ha; exact mul_nonneg (by have := mul_pos (hsl a ha) (hzl a ha); linarith) (mul_self_nonneg _)
+    · exact le_refl _
+  have n6 : ∀ a ∈ (Finset.univ : Finset (Fin n)), 0 ≤ (if actu a then (δ + su a * zu a) * (wzu a * wzu a) else 0) := fun a _ => by
+    split
+    · rename_i ha; exact mul_nonneg (by have := mul_pos (hsu a ha) (hzu a ha); linarith) (mul_self_nonneg _)
+    · exact le_refl _
+  have q2 := Finset.sum_nonneg n2
+  have q3 := Finset.sum_nonneg n3
+  have q4 := Finset.sum_nonneg n4
+  have q5 := Finset.sum_nonneg n5
+  have q6 := Finset.sum_nonneg n6
+  have z2 : (∑ j, wx j * (ρ * wx j)) = 0 := by linarith
+  have z3 : (∑ t, δ * (wy t * wy t)) = 0 := by linarith
+  have z4 : (∑ t, (δ + sv t * zinv t) * (wz t * wz t)) = 0 := by linarith
+  have z5 : (∑ a, if actl a then (δ + sl a * zl a) * (wzl a * wzl a) else 0) = 0 := by linarith
+  have z6 : (∑ a, if actu a then (δ + su a * zu a) * (wzu a * wzu a) else 0) = 0 := by linarith
+  have hx0 : ∀ j, wx j = 0 := by
+    intro j
+    have := (Finset.sum_eq_zero_iff_of_nonneg n2).mp z2 j (Finset.mem_univ j)
+    have h2 : wx j * wx j = 0 := by
+      have : ρ * (wx j * wx j) = 0 := by linarith
+      rcases mul_eq_zero.mp this with h | h
+      · exact absurd h (ne_of_gt hρ)
+      · exact h
+    exact mul_self_eq_zero.mp h2
+  have hy0 : ∀ t, wy t = 0 := by
+    intro t
+    have := (Finset.sum_eq_zero_iff_of_nonneg n3).mp z3 t (Finset.mem_univ t)
+    rcases mul_eq_zero.mp this with h | h
+    · exact absurd h (ne_of_gt hδ)
+    · exact mul_self_eq_zero.mp h
+  have hz0 : ∀ t, wz t = 0 := by
+    intro t
+    have := (Finset.sum_eq_zero_iff_of_nonneg n4).mp z4 t (Finset.mem_univ t)
+    rcases mul_eq_zero.mp this with h | h
+    · have := mul_pos (hs t) (hz t); linarith
+    · exact mul_self_eq_zero.mp h
+  have hzl0 : ∀ a, actl a → wzl a = 0 := by
+    intro a ha
+    have := (Finset.sum_eq_zero_iff_of_nonneg n5).mp z5 a (Finset.mem_univ a)
+    simp only [ha, if_true] at this
+    rcases mul_eq_zero.mp this with h | h
+    · have := mul_pos (hsl a ha) (hzl a ha); linarith
+    · exact mul_self_eq_zero.mp h
+  have hzu0 : ∀ a, actu a → wzu a = 0 := by
+    intro a ha
+    have := (Finset.sum_eq_zero_iff_of_nonneg n6).mp z6 a (Finset.mem_univ a)
+    simp only [ha, if_true] at this
+    rcases mul_eq_zero.mp this with h | h
+    · have := mul_pos (hsu a ha) (hzu a ha); linarith
+    · exact mul_self_eq_zero.mp h
+  refine ⟨hx0, hy0, hz0, fun t => by rw [ews t, hz0 t, mul_zero], fun a ha => ⟨hzl0 a ha, by rw [ewsl a ha, hzl0 a ha, mul_zero]⟩,
+    fun a ha => ⟨hzu0 a ha, by rw [ewsu a ha, hzu0 a ha, mul_zero]⟩⟩
+end kernel
+
+section inj
+open Piqp.C13
+variable {K : Type} [Field K] [LinearOrder K] [IsStrictOrderedRing K]
+variable {n p m : Nat}
+
+theorem mult_x (d : Data K n p m) (k : KKT K n p m) (v old : Step K n p m) (j : Fin n) :
+    (KKT.multiply d k v old).x[j] = (∑ c : Fin n, d.Psym[j][c] * v.x[c]) + k.rho * v.x[j] +
+      ((∑ t : Fin p, d.AT[j][t] * v.y[t]) + ∑ t : Fin m, d.GT[j][t] * v.z[t])
+      - (∑ a : Fin n, if d.lb.act a ∧ d.lb.idx[a] = j then d.lb.sc[a] * v.z_lb[a] else 0)
+      + (∑ a : Fin n, if d.ub.act a ∧ d.ub.idx[a] = j then d.ub.sc[a] * v.z_ub[a] else 0) := by
+  simp only [KKT.multiply, C13.ofFn_get, C13.mulVec_get, C13.scatter_get]
+theorem mult_y (d : Data K n p m) (k : KKT K n p m) (v old : Step K n p m) (t : Fin p) :
+    (KKT.multiply d k v old).y[t] = (∑ i : Fin n, d.AT[i][t] * v.x[i]) - k.delta * v.y[t] := by
+  simp only [KKT.multiply, C13.ofFn_get, C13.mulVecT_get]
+theorem mult_z (d : Data K n p m) (k : KKT K n p m) (v old : Step K n p m) (t : Fin m) :
+    (KKT.multiply d k v old).z[t] = (∑ i : Fin n, d.GT[i][t] * v.x[i]) - k.delta * v.z[t] + v.s[t] := by
+  simp only [KKT.multiply, C13.ofFn_get, C13.mulVecT_get]
+theorem mult_s (d : Data K n p m) (k : KKT K n p m) (v old : Step K n p m) (t : Fin m) :
+    (KKT.multiply d k v old).s[t] = k.s[t] * v.z[t] + (1 / k.zinv[t]) * v.s[t] := by
+  simp only [KKT.multiply, C13.ofFn_get]
+theorem mult_zl (d : Data K n p m) (k : KKT K n p m) (v old : Step K n p m) (a : Fin n) (ha : d.lb.act a) :
+    (KKT.multiply d k v old).z_lb[a] = -d.lb.sc[a] * v.x[d.lb.idx[a]] - k.delta * v.z_lb[a] + v.s_lb[a] := by
+  simp only [KKT.multiply, C13.headUpd_get, ha, if_true]
+theorem mult_zu (d : Data K n p m) (k : KKT K n p m) (v old : Step K n p m) (a : Fin n) (ha : d.ub.act a) :
+    (KKT.multiply d k v old).z_ub[a] = d.ub.sc[a] * v.x[d.ub.idx[a]] - k.delta * v.z_ub[a] + v.s_ub[a] := by
+  simp only [KKT.multiply, C13.headUpd_get, ha, if_true]
+theorem mult_sl (d : Data K n p m) (k : KKT K n p m) (v old : Step K n p m) (a : Fin n) (ha : d.lb.act a) :
+    (KKT.multiply d k v old).s_lb[a] = k.s_lb[a] * v.z_lb[a] + (1 / k.zinv_lb[a]) * v.s_lb[a] := by
+  simp only [KKT.multiply, C13.headUpd_get, ha, if_true]
+theorem mult_su (d : Data K n p m) (k : KKT K n p m) (v old : Step K n p m) (a : Fin n) (ha : d.ub.act a) :
+    (KKT.multiply d k v old).s_ub[a] = k.s_ub[a] * v.z_ub[a] + (1 / k.zinv_ub[a]) * v.s_ub[a] := by
+  simp only [KKT.multiply, C13.headUpd_get, ha, if_true]
+
+theorem sum_mul_sub {q : Nat} (f x y : Fin q → K) : (∑ a, f a * (x a - y a)) = (∑ a, f a * x a) - ∑ a, f a * y a := by
+  simp only [mul_sub, Finset.sum_sub_distrib]
+
+theorem sum_ite_mul_sub {q : Nat} (c : Fin q → Prop) [DecidablePred c] (f x y : Fin q → K) :
+    (∑ a, if c a then f a * (x a - y a) else 0) = (∑ a, if c a then f a * x a else 0) - ∑ a, if c a then f a * y a else 0 := by
+  rw [← Finset.sum_sub_distrib]
+  refine Finset.sum_congr rfl fun a _ => ?_
+  split
+  · ring
+  · ring
+
+theorem step_ext (u v : Step K n p m) (e1 : u.x = v.x) (e2 : u.y = v.y) (e3 : u.z = v.z) (e4 : u.z_lb = v.z_lb) (e5 : u.z_ub = v.z_ub)
+    (e6 : u.s = v.s) (e7 : u.s_lb = v.s_lb) (e8 : u.s_ub = v.s_ub) : u = v := by
+  cases u; cases v; simp_all
+
+/-- **the full regularised Newton operator is injective on a convex problem at an interior iterate** (for steps that agree on
+    the dead tails of the box blocks, which `KKT.multiply` does not read) -/
+theorem multiply_injective (d : Data K n p m) (k : KKT K n p m) (old : Step K n p m)
+    (hP : ∀ x : Vec K n, 0 ≤ C14.quad d.Psym x) (hρ : 0 < k.rho) (hδ : 0 < k.delta)
+    (hs : ∀ t : Fin m, 0 < k.s[t]) (hz : ∀ t : Fin m, 0 < k.zinv[t])
+    (hsl : ∀ a : Fin n, d.lb.act a → 0 < k.s_lb[a]) (hzl : ∀ a : Fin n, d.lb.act a → 0 < k.zinv_lb[a])
+    (hsu : ∀ a : Fin n, d.ub.act a → 0 < k.s_ub[a]) (hzu : ∀ a : Fin n, d.ub.act a → 0 < k.zinv_ub[a])
+    (u v : Step K n p m)
+    (htl : ∀ a : Fin n, ¬ d.lb.act a → u.z_lb[a] = v.z_lb[a] ∧ u.s_lb[a] = v.s_lb[a])
+    (htu : ∀ a : Fin n, ¬ d.ub.act a → u.z_ub[a] = v.z_ub[a] ∧ u.s_ub[a] = v.s_ub[a])
+    (h : KKT.multiply d k u old = KKT.multiply d k v old) : u = v := by
+  have hP' : ∀ x : Fin n → K, 0 ≤ ∑ j : Fin n, x j * ∑ c : Fin n, d.Psym[j][c] * x c := by
+    intro x
+    have := hP (Vector.ofFn x)
+    unfold C14.quad at this
+    simpa only [C13.ofFn_get] using this
+  have hk := newton_kernel_trivial (fun j c => d.Psym[j][c]) (fun j t => d.AT[j][t]) (fun j t => d.GT[j][t])
+    d.lb.act d.ub.act (fun a => d.lb.idx[a]) (fun a => d.ub.idx[a]) (fun a => d.lb.sc[a]) (fun a => d.ub.sc[a])
+    k.rho k.delta (fun t => k.s[t]) (fun t => k.zinv[t]) (fun a => k.s_lb[a]) (fun a => k.zinv_lb[a]) (fun a => k.s_ub[a]) (fun a => k.zinv_ub[a])
+    hP' hρ hδ hs hz hsl hzl hsu hzu
+    (fun j => u.x[j] - v.x[j]) (fun t => u.y[t] - v.y[t]) (fun t => u.z[t] - v.z[t]) (fun t => u.s[t] - v.s[t])
+    (fun a => u.z_lb[a] - v.z_lb[a]) (fun a => u.s_lb[a] - v.s_lb[a]) (fun a => u.z_ub[a] - v.z_ub[a]) (fun a => u.s_ub[a] - v.s_ub[a])
+    (by
+      intro j
+      have e := congrArg (fun s => s.x[j]) h
+      simp only [mult_x] at e
+      simp only [sum_mul_sub, sum_ite_mul_sub]
+      linear_combination e)
+    (by
+      intro t
+      have e := congrArg (fun s => s.y[t]) h
+      simp only [mult_y] at e
+      simp only [sum_mul_sub]
+      linear_combination e)
+    (by
+      intro t
+      have e := congrArg (fun s => s.z[t]) h
+      simp only [mult_z] at e
+      simp only [sum_mul_sub]
+      linear_combination e)
+    (by
+      intro a ha
+      have e := congrArg (fun s => s.z_lb[a]) h
+      simp only [mult_zl d k _ old a ha] at e
+      linear_combination e)
+    (by
+      intro a ha
+      have e := congrArg (fun s => s.z_ub[a]) h
+      simp only [mult_zu d k _ old a ha] at e
+      linear_combination e)
+    (by
+      intro t
+      have e := congrArg (fun s => s.s[t]) h
+      simp only [mult_s] at e
+      linear_combination e)
+    (by
+      intro a ha
+      have e := congrArg (fun s => s.s_lb[a]) h
+      simp only [mult_sl d k _ old a ha] at e
+      linear_combination e)
+    (by
+      intro a ha
+      have e := congrArg (fun s => s.s_ub[a]) h
+      simp only [mult_su d k _ old a ha] at e
+      linear_combination e)
+  obtain ⟨kx, ky, kz, ks, kl, ku⟩ := hk
+  apply step_ext
+  · exact Vector.ext fun i hi => sub_eq_zero.mp (kx ⟨i, hi⟩)
+  · exact Vector.ext fun i hi => sub_eq_zero.mp (ky ⟨i, hi⟩)
+  · exact Vector.ext fun i hi => sub_eq_zero.mp (kz ⟨i, hi⟩)
+  · exact Vector.ext fun i hi => by
+      by_cases ha : d.lb.act ⟨i, hi⟩
+      · exact sub_eq_zero.mp (kl ⟨i, hi⟩ ha).1
+      · exact (htl ⟨i, hi⟩ ha).1
+  · exact Vector.ext fun i hi => by
+      by_cases ha : d.ub.act ⟨i, hi⟩
+      · exact sub_eq_zero.mp (ku ⟨i, hi⟩ ha).1
+      · exact (htu ⟨i, hi⟩ ha).1
+  · exact Vector.ext fun i hi => sub_eq_zero.mp (ks ⟨i, hi⟩)
+  · exact Vector.ext fun i hi => by
+      by_cases ha : d.lb.act ⟨i, hi⟩
+      · exact sub_eq_zero.mp (kl ⟨i, hi⟩ ha).2
+      · exact (htl ⟨i, hi⟩ ha).2
+  · exact Vector.ext fun i hi => by
+      by_cases ha : d.ub.act ⟨i, hi⟩
+      · exact sub_eq_zero.mp (ku ⟨i, hi⟩ ha).2
+      · exact (htu ⟨i, hi⟩ ha).2
+
+theorem recover_tails (be : Backend) (d : Data K n p m) (k : KKT K n p m) (r old : Step K n p m) (sol : Vec K n × Vec K p × Vec K m) :
+    (∀ a : Fin n, ¬ d.lb.act a → (recover be d k r old sol).z_lb[a] = old.z_lb[a] ∧ (recover be d k r old sol).s_lb[a] = old.s_lb[a]) ∧
+    (∀ a : Fin n, ¬ d.ub.act a → (recover be d k r old sol).z_ub[a] = old.z_ub[a] ∧ (recover be d k r old sol).s_ub[a] = old.s_ub[a]) := by
+  unfold recover
+  refine ⟨fun a ha => ?_, fun a ha => ?_⟩
+  · simp only [C13.headUpd_get, ha, if_false]; exact ⟨trivial, trivial⟩
+  · simp only [C13.headUpd_get, ha, if_false]; exact ⟨trivial, trivial⟩
+
+/-- **C10, all back ends compute the same step on a convex problem.** Any two of the five back ends whose reduced matrices are
+    coherent with the same data and scalings and whose inner factorisations are exact return *equal* steps at an interior
+    iterate of a convex problem (`P ⪰ 0`, `ρ, δ > 0`): the injectivity that `backends_agree_exact` asks for holds
+    (`multiply_injective`), so this statement has no unmet hypothesis. -/
+theorem backends_agree_convex (be1 be2 : Backend) (st1 st2 : KKTSettings K) (d : Data K n p m) (k1 k2 : KKT K n p m)
+    (r old out1 out2 : Step K n p m) (slv1 slv2 : SolveFn K n p m)
+    (hsame : SameScalings k1 k2)
+    (hf1 : k1.fsol = some slv1) (hc1 : Coherent be1 d k1) (he1 : InnerExact be1 k1.k slv1) (hi1 : Interior d k1)
+    (hf2 : k2.fsol = some slv2) (hc2 : Coherent be2 d k2) (he2 : InnerExact be2 k2.k slv2) (hi2 : Interior d k2)
+    (h1 : KKT.solve be1 st1 d k1 r old false = some out1) (h2 : KKT.solve be2 st2 d k2 r old false = some out2)
+    (hP : ∀ x : Vec K n, 0 ≤ C14.quad d.Psym x) (hρ : 0 < k1.rho) (hδ : 0 < k1.delta)
+    (hs : ∀ t : Fin m, 0 < k1.s[t]) (hz : ∀ t : Fin m, 0 < k1.zinv[t])
+    (hsl : ∀ a : Fin n, d.lb.act a → 0 < k1.s_lb[a]) (hzl : ∀ a : Fin n, d.lb.act a → 0 < k1.zinv_lb[a])
+    (hsu : ∀ a : Fin n, d.ub.act a → 0 < k1.s_ub[a]) (hzu : ∀ a : Fin n, d.ub.act a → 0 < k1.zinv_ub[a]) :
+    out1 = out2 := by
+  have key := (backends_agree_exact be1 be2 st1 st2 d k1 k2 r old out1 out2 slv1 slv2 hsame hf1 hc1 he1 hi1 hf2 hc2 he2 hi2 h1 h2).1
+  have e1 := solve_eq_recover be1 st1 d k1 r old out1 slv1 hf1 h1
+  have e2 := solve_eq_recover be2 st2 d k2 r old out2 slv2 hf2 h2
+  obtain ⟨t1l, t1u⟩ := recover_tails be1 d k1 r old (slv1 (rxOf be1 d k1 r) r.y (zbarOf be1 k1 r))
+  obtain ⟨t2l, t2u⟩ := recover_tails be2 d k2 r old (slv2 (rxOf be2 d k2 r) r.y (zbarOf be2 k2 r))
+  rw [← e1] at t1l t1u
+  rw [← e2] at t2l t2u
+  exact multiply_injective d k1 old hP hρ hδ hs hz hsl hzl hsu hzu out1 out2
+    (fun a ha => ⟨(t1l a ha).1.trans (t2l a ha).1.symm, (t1l a ha).2.trans (t2l a ha).2.symm⟩)
+    (fun a ha => ⟨(t1u a ha).1.trans (t2u a ha).1.symm, (t1u a ha).2.trans (t2u a ha).2.symm⟩) key
+end inj
 end Piqp.C10
